@@ -292,6 +292,20 @@ def gen_C07(tier, seed):
             refs['ORIGIN'] = [p.origin(lf, name='O1', origin_reference=rng.choice([None, 3]))]
         p.write(1)
         progs.append(p.build())
+    # the same name in two sets of one type (known finding K03)
+    for i in range(3):
+        p = Prog(f'C07-twosets-{i}', {'kind': 'twosets'})
+        lf, o = base_lf(p)
+        c1 = p.channel(lf, 'SAME', data=np.arange(3, dtype='float64'))
+        c2 = p.channel(lf, 'SAME', data=np.arange(3, dtype='float64') + 1, set_name='SECOND-SET')
+        p.frame(lf, 'FR1', [c1])
+        p.frame(lf, 'FR2', [c2], set_name='SECOND-SET' if i else None)
+        if i == 2:
+            z1 = p.add(lf, 'zone', 'Z')
+            z2 = p.add(lf, 'zone', 'Z', set_name='MORE-ZONES')
+            p.add(lf, 'parameter', 'P', zones=L(R(z2)), values=L(F(1.0)))
+        p.write(1)
+        progs.append(p.build())
     # references to a missing origin: either rejected or written with a resolvable origin
     for i in range(4):
         p = Prog(f'C07-noorigin-{i}', {'kind': 'badoriginref', 'fringe': True})
@@ -427,13 +441,14 @@ def gen_C13(tier, seed):
                     kw = {}
                     if indexed:
                         kw['index_type'] = EN('FrameIndexType', 'BOREHOLE_DEPTH')
+                    zero = (k % 3 == 0)      # user-supplied values that are falsy in Python are still the user's values
                     if user in ('min', 'all'):
-                        kw['index_min'] = F(-5.0)
+                        kw['index_min'] = rng.choice([I(0), F(0.0)]) if zero else F(-5.0)
                     if user == 'all':
-                        kw['index_max'] = I(99)
+                        kw['index_max'] = I(0) if zero else I(99)
                         kw['direction'] = S('DECREASING')
                     if user in ('spacing', 'all'):
-                        kw['spacing'] = F(0.25)
+                        kw['spacing'] = rng.choice([I(0), F(0.0)]) if zero else F(0.25)
                     p.frame(lf, 'FR', [idx, oth], **kw)
                     opts = {}
                     if len(s) > 2 and rng.random() < 0.4:
